@@ -306,6 +306,8 @@ def run(ctx):
                 key = "trr|stride+atom_indices|heap-overflow"
             seen.setdefault(key, (what, desc))
         for name, detail in res["broke"]:
+            if overflow:
+                continue    # what an overrun heap returns is not a statement about the model (the finding is recorded above)
             ctx.broke(name, detail)
         ctx.case(desc, res["nontriv"])
         ctx.count("calls:" + kind)
